@@ -23,6 +23,9 @@ structure Stmt where
   n : Nat
   inverse : Bool := false
   comments : List Comment := []
+  /-- provenance of `probability` for the merged `NONLITERAL` statement: the implementation adds the
+  two floats `nB/N + nI/N`; the model keeps the two counts (`n = nB + nI`) -/
+  parts : Option (Nat × Nat) := none
 deriving DecidableEq, Repr, Inhabited
 
 /-- `st_type` of an ordinary statement -/
@@ -119,9 +122,9 @@ def mergeGroup (cfg : Config) (g : List Stmt) : Stmt :=
         match shapes with
         | [s] => if i.n + b.n == s.n then (s, true)
                  else ({ prop := b.prop, types := [Gen.NONLITERAL_ELEM_TYPE], card := mostGeneral b.card i.card,
-                         n := b.n + i.n, inverse := b.inverse }, false)
+                         n := b.n + i.n, inverse := b.inverse, parts := some (b.n, i.n) }, false)
         | _ => ({ prop := b.prop, types := [Gen.NONLITERAL_ELEM_TYPE], card := mostGeneral b.card i.card,
-                  n := b.n + i.n, inverse := b.inverse }, false)
+                  n := b.n + i.n, inverse := b.inverse, parts := some (b.n, i.n) }, false)
       | none =>
         match shapes with
         | s :: _ => if s.n == b.n then (s, true) else (b, false)
@@ -141,7 +144,8 @@ def mergeGroup (cfg : Config) (g : List Stmt) : Stmt :=
         if cfg.allowRedundantOr then (if domIsShape then [] else [d0.ty]) ++ shapes.map (·.ty)
         else if domIsShape then shapes.map (·.ty) else []
       if stTypes.length > 1 then
-        ({ prop := d0.prop, types := stTypes, choice := true, card := d0.card, n := d0.n, inverse := d0.inverse }, true)
+        ({ prop := d0.prop, types := stTypes, choice := true, card := d0.card, n := d0.n, inverse := d0.inverse,
+           parts := d0.parts }, true)
       else (d0, false)
   -- `_feed_dominant_constraint_with_comments`
   let cB := match bnode with
